@@ -769,3 +769,8 @@ mod tests {
         Ok(())
     }
 }
+
+// verification hook (guard: cfg(kani), set only by the Kani compiler): harnesses live in /verif/kani
+#[cfg(kani)]
+#[path = "/verif/kani/decrypt.rs"]
+mod verif_kani;
